@@ -66,6 +66,8 @@ func ruleTables(c *Ctx) {
 	}
 	l := c.L
 	b.unescapeTable(l)
+	b.rescanNumberBytes(l)
+	b.surrogatePairs(l)
 	safe, n1, ok1 := b.boolTable(b.Codec, "safeSet")
 	html, n2, ok2 := b.boolTable(b.Codec, "htmlSafeSet")
 	key := "safeSet[b] ⇔ 0x20 ≤ b < 0x80 ∧ b ∉ {\", \\}"
@@ -840,6 +842,7 @@ func ruleEscSet(c *Ctx) {
 		}
 	}
 
+	b.marshalerOutputCompacted(l)
 	// --- provenance of the flag: MarshalEscaped -> opts.escapeHTML -> compact
 	{
 		key := "flag provenance: MarshalEscaped passes its argument, Marshal the constant true, as opts.escapeHTML"
